@@ -1,10 +1,10 @@
 SPECIFICATION Spec
 CONSTANTS
-  Transport = "quic"
+  Transport = "tls"
   ResidueAfterFailure = FALSE
-  ShortCookieRead = TRUE
-  DialResetsData = FALSE
-  Alpns <- AlpnsQuic
+  ShortCookieRead = FALSE
+  DialResetsData = TRUE
+  Alpns <- AlpnsTls
   Alphabet <- AlphaCore
   CutRecs <- CutCore
   MaxRecs = 4
@@ -12,6 +12,6 @@ CONSTANTS
   MaxCalls = 4
   MaxStore = 1
   CtxMode = "ignored"
-  MaxStalls = 0
-INVARIANTS TypeOK SuccessOnlyIf KeysAgree PoolIsIssued PoolReturned Destination NoResidue
+  MaxStalls = 1
+INVARIANTS TypeOK SuccessOnlyIf KeysAgree PoolIsIssued PoolReturned Destination NoResidue NoResidueState
 PROPERTIES IgnoresNonCritical
